@@ -10,6 +10,7 @@ from ..core import Clause, Violation
 from ..ref import queries as R
 
 META = {
+    "thorough_scale": 4,
     "level": "exploration",
     "rule": (
         "SimTTY histories over resize(cols,rows,xpix,ypix) via TIOCSWINSZ, enable/disable_win_size_swap, "
